@@ -1234,7 +1234,11 @@ fn run_c15(a: &Args) {
                         expect32 = expect64 && dw[1] == d1[1];
                     } else if which < 8 {
                         let w = which as usize;
-                        key2[4 * w + rng.below(4) as usize] ^= 1 << rng.below(8);
+                        match rng.below(4) {
+                            0 => key2[4 * w] ^= 1,          // lowest bit of the word
+                            1 => key2[4 * w + 3] ^= 0x80,   // highest bit of the word
+                            _ => key2[4 * w + rng.below(4) as usize] ^= 1 << rng.below(8),
+                        }
                         let mut kk = [0u8; 32];
                         kk.copy_from_slice(&key2);
                         let mut t = ChaCha::new(&kk, &[0u8; 8]);
@@ -1246,7 +1250,9 @@ fn run_c15(a: &Args) {
                     } else if which < 12 {
                         let w = (which - 8) as u32; // d word index
                         let p = w / 2;
-                        let v = s2.get_stream_param(p) ^ (1u64 << (32 * (w % 2) + rng.below(32) as u32));
+                        // the bit: lowest, highest or any (a comparison that is off by one at either end of a word)
+                        let bit = match rng.below(4) { 0 => 0, 1 => 31, _ => rng.below(32) as u32 };
+                        let v = s2.get_stream_param(p) ^ (1u64 << (32 * (w % 2) + bit));
                         s2.set_stream_param(p, v);
                         // word 0: both predicates ignore it; word 1: only the 64-bit one ignores it
                         expect32 = w == 0;
